@@ -126,7 +126,7 @@ CLAIMS.update({
               "to /repo: weights vs closing of the model cores and vs an independent Decimal re-computation; permuted "
               "presentations compared by criterion label."),
         design="§5 C13",
-        note=NOTE_COMMON + "Model: coq/Model/Weights.v. Known finding C13-critic-single-criterion-nan is reported as KNOWN-FINDING.",
+        note=NOTE_COMMON + "Model: coq/Model/Weights.v. Known finding C13-critic-all-correlated-nan is reported as KNOWN-FINDING.",
         technique="Coq proof over rational cores (incl. Cauchy-Schwarz) + differential correspondence with 60-digit closings"),
 })
 
